@@ -134,7 +134,7 @@ Lemma ensure_window_spec : forall a L start end_row a1 xf e,
   ensure_window a start end_row = (a1, xf, e) ->
   e = None /\ VI a1 L /\ a_cur a1 <= start /\ end_row <= a_cur a1 + a_inmem a1 /\
   a_undef a1 = a_undef a /\ a_prezero a1 = a_prezero a /\ a_rows a1 = a_rows a /\ a_maxacc a1 = a_maxacc a /\
-  a_bsopen a1 = a_bsopen a /\
+  a_bsopen a1 = a_bsopen a /\ a_inmem a1 = a_inmem a /\
   Forall (fun x => xfer_ok a x \/ xfer_ok a1 x) xf.
 Proof.
   intros a L start end_row a1 xf e (G & D) Hs Hse He Hn H.
@@ -309,26 +309,71 @@ Proof.
 Qed.
 
 (* ------------------------------------------------------------ the access function as a whole *)
+Lemma ensure_defined_geom : forall a1 s e w a2 r, ensure_defined a1 s e w = (a2, r) ->
+  a_rows a2 = a_rows a1 /\ a_maxacc a2 = a_maxacc a1 /\ a_inmem a2 = a_inmem a1 /\ a_rpc a2 = a_rpc a1 /\ a_cur a2 = a_cur a1 /\
+  a_prezero a2 = a_prezero a1 /\ a_bsopen a2 = a_bsopen a1.
+Proof.
+  intros a1 s e w a2 r H. unfold ensure_defined in H.
+  destruct (a_undef a1 <? e); [destruct ((a_undef a1 <? s) && w)|]; [inversion H; subst; repeat split; auto| |].
+  - destruct w; simpl in H; destruct (a_prezero a1) eqn:Ez; simpl in H; inversion H; subst; simpl; repeat split; auto.
+  - destruct w; inversion H; subst; simpl; repeat split; auto.
+Qed.
+
+(* exactly when the definedness phase raises JERR_BAD_VIRTUAL_ACCESS *)
+Definition defined_err (a1 : varray) (s e : Z) (w : bool) : bool :=
+  (a_undef a1 <? e) && (if w then a_undef a1 <? s else negb (a_prezero a1)).
+
+Lemma ensure_defined_err : forall a1 s e w a2 r, ensure_defined a1 s e w = (a2, r) ->
+  match r with inl _ => defined_err a1 s e w = true | inr _ => defined_err a1 s e w = false end.
+Proof.
+  intros a1 s e w a2 r H. unfold ensure_defined, defined_err in *.
+  destruct (a_undef a1 <? e); simpl.
+  2: { destruct w; inversion H; subst; auto. }
+  destruct w; simpl in *.
+  - rewrite andb_true_r in H. destruct (a_undef a1 <? s); simpl in H.
+    + inversion H; subst; auto.
+    + destruct (a_prezero a1); simpl in H; inversion H; subst; auto.
+  - rewrite andb_false_r in H. destruct (a_prezero a1); simpl in H; inversion H; subst; auto.
+Qed.
+
+Lemma ensure_defined_same : forall a1 s e w a2 r, ensure_defined a1 s e w = (a2, r) ->
+  (forall er, r = inl er -> a2 = a1) /\ (w = false -> a_undef a2 = a_undef a1).
+Proof.
+  intros a1 s e w a2 r H. unfold ensure_defined in H.
+  destruct (a_undef a1 <? e).
+  2: { destruct w; inversion H; subst; split; intros; auto; discriminate. }
+  destruct w; simpl in H.
+  - rewrite andb_true_r in H. destruct (a_undef a1 <? s); simpl in H.
+    + inversion H; subst; split; intros; auto; discriminate.
+    + destruct (a_prezero a1); simpl in H; inversion H; subst; split; intros; try discriminate.
+  - rewrite andb_false_r in H. destruct (a_prezero a1); simpl in H; inversion H; subst; split; intros; auto; discriminate.
+Qed.
+
+Lemma ensure_window_nobs : forall a s e a1 x, ensure_window a s e = (a1, x, None) -> a_bsopen a = false -> x = [] /\ a1 = a.
+Proof.
+  intros a s e a1 x H Hb. unfold ensure_window in H. rewrite Hb in H. simpl in H.
+  destruct ((s <? a_cur a) || (e >? (a_cur a + a_inmem a) mod two32)); inversion H; auto.
+Qed.
+
 Theorem access_spec : forall a L start num writable a' res xf,
   VI a L -> 0 <= start -> 0 <= num -> start + num < 2 ^ 32 ->
   access a start num writable = (a', res, xf) ->
-  Forall (fun x => xfer_ok a x \/ xfer_ok a' x \/ xfer_ok (set_win a' (a_cur a') (a_undef a) (a_dirty a')) x) xf /\
+  Forall (fun x => xfer_ok a x \/ xfer_ok (set_win a' (a_cur a') (a_undef a) (a_dirty a')) x) xf /\
   (a_bsopen a = false -> xf = []) /\
+  a_rows a' = a_rows a /\ a_maxacc a' = a_maxacc a /\ a_prezero a' = a_prezero a /\ a_bsopen a' = a_bsopen a /\
   match res with
-  | inl e => e = BadVirtualAccess /\ VI a' L /\
-             ((start + num >? a_rows a) || (num >? a_maxacc a) = true \/
-              (a_undef a < start + num /\ (if writable then a_undef a < start else a_prezero a = false)))
+  | inl e => e = BadVirtualAccess /\ VI a' L /\ a_undef a' = a_undef a /\
+             ((start + num >? a_rows a) || (num >? a_maxacc a) || defined_err a start (start + num) writable = true)
   | inr off =>
-      start + num <= a_rows a /\ num <= a_maxacc a /\
+      (start + num >? a_rows a) || (num >? a_maxacc a) || defined_err a start (start + num) writable = false /\
       (* the returned row pointers mem_buffer[off .. off+num) lie in the in-memory window *)
       off = start - a_cur a' /\ 0 <= off /\ off + num <= a_inmem a' /\ a_inmem a' = a_inmem a /\
       if writable then
-        a_undef a >= start /\ a_undef a' = Z.max (a_undef a) (start + num) /\
+        a_undef a' = Z.max (a_undef a) (start + num) /\
         (forall vals, Z.of_nat (length vals) = num ->
            VI (set_data a' (store_rows (a_mem a') off vals) (a_file a')) (Lupd L start vals))
       else
         VI a' L /\ a_undef a' = a_undef a /\
-        (a_undef a >= start + num \/ a_prezero a = true) /\
         (forall k, 0 <= k < num ->
            a_mem a' (off + k) = if start + k <? a_undef a then Some (L (start + k)) else Some 0)
   end.
@@ -336,17 +381,134 @@ Proof.
   intros a L start num writable a' res xf HV Hs Hn Hw H.
   assert (HV0 := HV). destruct HV as (G & D). destruct G as (g1 & g2 & g3 & g4 & g5 & g6 & g7 & g8).
   unfold access in H. rewrite (mod32_small (start + num)) in H by lia.
-  destruct ((start + num >? a_rows a) || (num >? a_maxacc a) || negb (a_real a)) eqn:Ec.
-  { inversion H; subst a' res xf. split; [constructor|]. split; auto. split; auto. split; auto.
-    left. rewrite g7 in Ec. simpl in Ec. rewrite orb_false_r in Ec. auto. }
-  rewrite g7 in Ec. simpl in Ec. rewrite orb_false_r in Ec.
+  rewrite g7 in H. simpl in H. rewrite orb_false_r in H.
+  destruct ((start + num >? a_rows a) || (num >? a_maxacc a)) eqn:Ec.
+  { inversion H; subst a' res xf. split; [constructor|]. repeat (split; auto). }
   destruct (ensure_window a start (start + num)) as [[a1 x1] e1] eqn:EW.
+  assert (EW0 := EW).
   apply (ensure_window_spec a L) in EW; auto; try lia.
-  destruct EW as (-> & HV1 & w1 & w2 & w3 & w4 & w5 & w6 & w7 & Hx).
+  destruct EW as (-> & HV1 & w1 & w2 & w3 & w4 & w5 & w6 & w7 & w8 & Hx).
   destruct (ensure_defined a1 start (start + num) writable) as [a2 r2] eqn:ED.
   inversion H; subst a' res xf. clear H.
-  assert (Hbs : a_bsopen a = false -> x1 = []).
-  { intros Hb. (* without backing store the window is the whole array *)
-    destruct (g8 Hb) as (i1 & i2). clear - Hb i1 i2 g2 g3 g4 Hs Hn Ec EW0. admit_marker. }
-  admit_marker.
+  pose proof (ensure_defined_geom _ _ _ _ _ _ ED) as (d1 & d2 & d3 & d4 & d5 & d6 & d7).
+  pose proof (ensure_defined_err _ _ _ _ _ _ ED) as Herr.
+  pose proof (ensure_defined_same _ _ _ _ _ _ ED) as Hsame.
+  assert (Hde : defined_err a1 start (start + num) writable = defined_err a start (start + num) writable)
+    by (unfold defined_err; rewrite w3, w4; auto).
+  rewrite Hde in Herr.
+  apply (ensure_defined_spec a1 L) in ED; auto; try lia.
+  split.
+  { eapply Forall_impl; [|exact Hx]. intros x [Hx1|Hx1]; [left; auto|right].
+    unfold xfer_ok in *. destruct x; simpl; rewrite d4, d3, d5, d1; rewrite <- w3; auto. }
+  split. { intros Hb. destruct (ensure_window_nobs _ _ _ _ _ EW0 Hb); auto. }
+  split; [congruence|]. split; [congruence|]. split; [congruence|]. split; [congruence|].
+  destruct r2 as [e|off].
+  - destruct ED as (-> & HV2). destruct (Hsame) as (Hs1 & _). rewrite (Hs1 _ eq_refl) in *.
+    split; auto.
+  - destruct ED as (-> & o1 & o2 & o3 & ED).
+    split; [simpl; auto|]. split; [congruence|]. split; [lia|]. split; [lia|]. split; [congruence|].
+    destruct writable.
+    + destruct ED as (u1 & u2 & u3). split; [congruence|].
+      intros vals Hl. apply u3. lia.
+    + destruct ED as (HV2 & Hk). destruct Hsame as (_ & Hs2). split; auto. split; [rewrite Hs2; auto|].
+      intros k Hk2. rewrite <- w3. apply Hk. lia.
+Qed.
+
+(* ------------------------------------------------------------ refinement: the swapped window = a plain array *)
+Lemma load_rows_spec : forall n m off L U s,
+  (forall k, 0 <= k < Z.of_nat n -> m (off + k) = if s + k <? U then Some (L (s + k)) else Some 0) ->
+  load_rows m off n = spec_read L U s n.
+Proof.
+  induction n as [|n IH]; intros m off L U s H; cbn [load_rows spec_read]; auto.
+  f_equal.
+  - specialize (H 0 ltac:(lia)). rewrite !Z.add_0_r in H. auto.
+  - apply IH. intros k Hk. specialize (H (k + 1) ltac:(lia)).
+    replace (off + 1 + k) with (off + (k + 1)) by lia. replace (s + 1 + k) with (s + (k + 1)) by lia. auto.
+Qed.
+
+Definition vop_ok (o : vop) : Prop :=
+  match o with
+  | VRead s n => 0 <= s /\ 0 <= n /\ s + n < 2 ^ 32
+  | VWrite s vals => 0 <= s /\ s + Z.of_nat (length vals) < 2 ^ 32
+  end.
+
+Ltac fin7 := repeat (split; [solve [auto]|]); auto.
+
+Theorem vstep_refines : forall a L o,
+  VI a L -> vop_ok o ->
+  let '(a', r) := vstep a o in
+  let '(L', U', r') := sstep (a_rows a) (a_maxacc a) (a_prezero a) L (a_undef a) o in
+  r = r' /\ VI a' L' /\ a_undef a' = U' /\
+  a_rows a' = a_rows a /\ a_maxacc a' = a_maxacc a /\ a_prezero a' = a_prezero a /\ a_bsopen a' = a_bsopen a.
+Proof.
+  intros a L o HV Hok. destruct o as [s n|s vals]; simpl in Hok; unfold vstep, sstep.
+  - destruct Hok as (h1 & h2 & h3).
+    destruct (access a s n false) as [[a' res] xf] eqn:EA.
+    apply (access_spec a L) in EA; auto.
+    destruct EA as (_ & _ & e1 & e2 & e3 & e4 & EA).
+    unfold defined_err in EA.
+    destruct res as [e|off].
+    + destruct EA as (-> & HV' & Hu & Hc).
+      destruct ((s + n >? a_rows a) || (n >? a_maxacc a)) eqn:E1; [fin7|].
+      simpl in Hc. rewrite Hc. fin7.
+    + destruct EA as (Hc & -> & o1 & o2 & o3 & HV' & Hu & Hk).
+      apply orb_false_iff in Hc. destruct Hc as (Hc1 & Hc2). rewrite Hc1, Hc2.
+      split; [f_equal; apply load_rows_spec; intros k Hk2; apply Hk; lia|]. fin7.
+  - destruct Hok as (h1 & h3).
+    unfold write_rows.
+    destruct (access a s (Z.of_nat (length vals)) true) as [[a' res] xf] eqn:EA.
+    apply (access_spec a L) in EA; auto; try lia.
+    destruct EA as (_ & _ & e1 & e2 & e3 & e4 & EA).
+    unfold defined_err in EA.
+    destruct res as [e|off].
+    + destruct EA as (-> & HV' & Hu & Hc).
+      destruct ((s + Z.of_nat (length vals) >? a_rows a) || (Z.of_nat (length vals) >? a_maxacc a)) eqn:E1; [fin7|].
+      simpl in Hc. rewrite Hc. fin7.
+    + destruct EA as (Hc & -> & o1 & o2 & o3 & Hu & Hv).
+      apply orb_false_iff in Hc. destruct Hc as (Hc1 & Hc2). rewrite Hc1, Hc2.
+      split; auto. split; [apply (Hv vals eq_refl)|]. simpl. split; [auto|]. split; [auto|]. split; [auto|]. split; auto.
+Qed.
+
+Theorem vrun_refines : forall ops a L,
+  VI a L -> Forall vop_ok ops ->
+  snd (vrun a ops) = srun (a_rows a) (a_maxacc a) (a_prezero a) L (a_undef a) ops.
+Proof.
+  induction ops as [|o r IH]; intros a L HV Hok; simpl; auto.
+  inversion Hok; subst.
+  pose proof (vstep_refines a L o HV H1) as Hs.
+  destruct (vstep a o) as [a' x]. destruct (sstep (a_rows a) (a_maxacc a) (a_prezero a) L (a_undef a) o) as [[L' U'] x'].
+  destruct Hs as (-> & HV' & Hu & q1 & q2 & q3 & q4).
+  specialize (IH a' L' HV' H2). destruct (vrun a' r) as [a'' xs]. simpl in *. rewrite IH, Hu, q1, q2, q3. reflexivity.
+Qed.
+
+(* never uninitialised memory: every row a reader gets holds a value *)
+Corollary reader_never_sees_garbage : forall a L s n a' vals,
+  VI a L -> 0 <= s -> 0 <= n -> s + n < 2 ^ 32 ->
+  vstep a (VRead s n) = (a', inr vals) -> Forall (fun c => c <> None) vals.
+Proof.
+  intros a L s n a' vals HV h1 h2 h3 H.
+  pose proof (vstep_refines a L (VRead s n) HV (conj h1 (conj h2 h3))) as R. rewrite H in R.
+  unfold sstep in R.
+  destruct ((s + n >? a_rows a) || (n >? a_maxacc a)); [destruct R; discriminate|].
+  destruct ((a_undef a <? s + n) && negb (a_prezero a)); [destruct R; discriminate|].
+  destruct R as (R & _). inversion R; subst. clear.
+  generalize s. induction (Z.to_nat n); intros; simpl; constructor; auto.
+  destruct (s0 <? a_undef a); discriminate.
+Qed.
+
+(* without a backing store (jmemnobs.c) nothing is ever transferred and JERR_VIRTUAL_BUG cannot occur *)
+Corollary no_backing_store_no_swap : forall a L start num w a' res xf,
+  VI a L -> a_bsopen a = false -> 0 <= start -> 0 <= num -> start + num < 2 ^ 32 ->
+  access a start num w = (a', res, xf) -> xf = [] /\ res <> inl VirtualBug /\ res <> inl IoFuel /\ a_cur a' = 0.
+Proof.
+  intros a L start num w a' res xf HV Hb h1 h2 h3 H.
+  apply (access_spec a L) in H; auto.
+  destruct H as (_ & Hx & _ & _ & _ & e4 & R). split; auto.
+  destruct res as [e|off].
+  - destruct R as (-> & (G & _) & _). repeat split; try discriminate.
+    destruct G as (_ & _ & _ & _ & _ & _ & _ & g8). apply g8. congruence.
+  - destruct R as (_ & _ & _ & _ & _ & R). repeat split; try discriminate.
+    assert (G : geom a').
+    { destruct w; [destruct R as (_ & Hv); destruct (Hv (repeat 0 (Z.to_nat num))) as (G & _); [rewrite repeat_length; lia|exact G] | destruct R as ((G & _) & _); exact G]. }
+    destruct G as (_ & _ & _ & _ & _ & _ & _ & g8). apply g8. congruence.
 Qed.
